@@ -206,6 +206,22 @@ def run(ctx):
         capped += c
         for kind, site, what, tkey, j in bad:
             res.add(Violation(PROP, kind, site, what, {"engine": "BISIM", "type": tkey, "input": j}, node=j))
+    # layer 3 (evolved model, second generate() in the same interpreter): a small slice, then the same slice evolved
+    from .c16 import evolve_for_history
+    small = docs.slice_model(doc, methods=("shutdown", "exit", "textDocument/didOpen", "textDocument/willSaveWaitUntil", "workspace/applyEdit"), names=())
+    ev = evolve_for_history(small)
+    logging.disable(logging.CRITICAL)
+    try:
+        tg.generate(model.create_lsp_model([copy.deepcopy(small)]), log)
+        data2 = tg.generate(model.create_lsp_model([copy.deepcopy(ev)]), log)
+        bad2, st2 = check_vectors(ev, data2)
+        for kind, site, what, fname, j in bad2:
+            res.add(Violation(PROP, kind, "second-run:" + site, "second generate() in one process, evolved model: " + what, {"engine": "BISIM", "file": fname, "input": j}, node=j))
+        evolved_files = st2["files"]
+    except Exception as e:  # noqa: BLE001
+        res.add(Violation(PROP, "plugin", "testdata:second-run", "generate() fails on the evolved model in the second run: %s: %s" % (type(e).__name__, str(e)[:200]), {"engine": "BISIM", "input": None}))
+        evolved_files = 0
+    logging.disable(logging.NOTSET)
     first = sorted(data)[0]
     res.coverage = {
         "states": stats["files"] + nodes, "transitions": stats["files"] + pairs,
@@ -214,10 +230,10 @@ def run(ctx):
         "rule": "layer 1: every file the testdata plugin's generate() emits for the committed model (run in-process): name pattern, sha256, message "
                 "class, label == strict validity under MM, >=1 True vector per message class, every True vector structured by the Python "
                 "converter; layer 2: every (valid, value) pair of generate_for_type for every distinct type expression of the metamodel "
-                "(cap %d pairs per node)" % cap,
+                "(cap %d pairs per node); layer 3: a second generate() in the same interpreter on an evolved slice, all its vectors judged" % cap,
         "vector_files": stats["files"], "labelled_true": stats["true"], "labelled_false": stats["false"],
         "true_vectors_accepted_by_converter": stats["accepted"], "message_classes": len(classes),
-        "type_nodes": nodes, "pairs_judged": pairs, "type_nodes_capped": capped,
+        "type_nodes": nodes, "pairs_judged": pairs, "type_nodes_capped": capped, "evolved_model_second_run_files": evolved_files,
         "exhaustive": capped == 0,
         "samples": [{"file": first, "content": json.loads(data[first])}],
     }
